@@ -245,6 +245,36 @@ void gen_garbage(Ctx &cx, const Sink &sink, bool thorough) {
     }
 }
 
+
+// files that carry a VALID tag for the key but were not produced by encryption (a key holder re-tagged arbitrary
+// bytes): outside C11's domain, inside C12's ("for every file and key") and C04's ("every input")
+void gen_forged(Ctx &cx, const Sink &sink, bool thorough) {
+  int Ts[] = {1, 2, 4, 8};
+  for (int ti = 0; ti < 4; ti++)
+    for (int hm = 0; hm < 3; hm++) {
+      size_t bodyoff = 48 + 20 * (size_t)Ts[ti];
+      std::vector<size_t> lens = {74, 75, 80, 100, bodyoff - 1, bodyoff, bodyoff + 1, bodyoff + 15, bodyoff + 16, bodyoff + 17, bodyoff + 32, bodyoff + VH_CHUNK, bodyoff + VH_CHUNK + 5, bodyoff + 3 * VH_CHUNK};
+      for (size_t L : lens) {
+        if (L < 74) continue;
+        for (int rep = 0; rep < (thorough ? 6 : 2); rep++) {
+          if (!cx.take()) continue;
+          vh::Rng r(vh::mix(cx.seed, (uint64_t)cx.idx + 0xF06));
+          Input in;
+          in.base = nullptr; in.T = Ts[ti]; in.kind = "forged-tag"; in.off = (long long)L; in.arg = hm;
+          r.fill(in.key, 16);
+          in.F = r.bytes_(L);
+          memcpy(in.F.data(), ref::MAGIC, 8);
+          in.F[8] = (uint8_t)r.below(5);
+          in.F[9] = (uint8_t)hm;
+          memset(in.F.data() + 10, 0, 38);
+          bytes tag = ref::hmac(hm, in.key, 16, in.F.data() + 48, L - 48);
+          memcpy(in.F.data() + 10, tag.data(), tag.size());
+          sink(in);
+        }
+      }
+    }
+}
+
 struct Outcome {
   ops::Result v, d;
 };
@@ -369,7 +399,14 @@ void run_C12(Ctx &cx) {
     std::string desc = in_desc(in);
     cx.begin(desc);
     cx.rep.count("pairs");
-    Outcome o = run_both(in);
+    Outcome o;
+    if (in.kind == "forged-tag") {
+      o.v = ops::verify(in.F, in.key, in.T);
+      cx.begin(desc.substr(0, desc.size() - 1) + ",\"verify_result\":" + (o.v.ret ? "true" : "false") + "}");
+      cx.rep.counters["cases"]--;
+      o.d = ops::decrypt(in.F, in.key, in.T);
+    } else
+      o = run_both(in);
     vh::J j;
     j.boolean("verify", o.v.ret).boolean("decrypt", o.d.ret);
     std::string cls = in.base ? in.kind : "garbage-" + in.kind;
@@ -408,6 +445,7 @@ void run_C12(Ctx &cx) {
     }
   }
   gen_garbage(cx, sink, cx.thorough);
+  gen_forged(cx, sink, cx.thorough);
   for (auto &b : bases) {
     gen_mutants(cx, b, sink, !cx.thorough);
     gen_wrongkeys(cx, b, sink, cx.thorough ? 256 : 32);
